@@ -2,7 +2,14 @@
 # Regression of the machinery's sensitivity: every seeded change must be caught by the quick
 # check of its property and its replay must reproduce.  Prints one line per change.
 set -u
-cd /verif
+export SIMPLC_OUT_DIR="${SIMPLC_OUT_DIR:-/tmp/simplc-sensitivity-out-$$}"
+# The repository the change is applied to and the checks run against: /repo, or a scratch copy named
+# by SIMPLC_REPO (e.g. the snapshot of `vp run --with-repo`), so that a long regression need not
+# occupy /repo.  The machinery is the tree this script lives in.
+HERE="$(cd "$(dirname "${BASH_SOURCE[0]}")/.." && pwd)"
+REPO="${SIMPLC_REPO:-/repo}"
+if [ "$REPO" != /repo ]; then export SIMPLC_REPO_WS="$REPO/compiler"; fi
+cd "$HERE"
 fail=0
 for d in seeded/*/; do  # (C11-D was reclassified and lives in preserving/C11-PD)
   id=$(basename $d)
